@@ -237,8 +237,12 @@ class Builder(object):
             sub_entry = None
             if app is not None:
                 sub = levels[k + 1]
-                sub_entry = early_sub or SubApplication(sub['prefix'], app, rebind_render=sub['rebind'],
-                                                        inherit_slashes=sub['inherit'])
+                if style == 'tuple4':
+                    # the tuple spelling with its options: (prefix, application, rebind_render, inherit_slashes)
+                    sub_entry = (sub['prefix'], app, sub['rebind'], sub['inherit'])
+                else:
+                    sub_entry = early_sub or SubApplication(sub['prefix'], app, rebind_render=sub['rebind'],
+                                                            inherit_slashes=sub['inherit'])
                 if style != 'add0':
                     routes.append(sub_entry)
             for r in lv['routes']:
@@ -343,6 +347,8 @@ def check_tree(acc, b, levels, layer, style='constructor', prebuilt=None):
                         feat.append('added-at-index')
                     if style == 'early':
                         feat.append('wrapper-before-routes')
+                    if style == 'tuple4':
+                        feat.append('tuple-spelling')
                     if prebuilt is not None:
                         feat.append('embedded-again')
                     if any(not lv['inherit'] for lv in levels[1:]):
@@ -404,7 +410,7 @@ def shard(tier, i, n, seed):
             if deadline_passed():
                 acc.extra['cap_hit'] = 1
                 return acc
-            check_tree(acc, b, levels, name, ('constructor', 'add0', 'early')[(k // n) % 3])
+            check_tree(acc, b, levels, name, ('constructor', 'add0', 'early', 'tuple4')[(k // n) % 4])
             acc.add('trees')
             if k % 1777 == i:
                 acc.sample({'layer': name, 'tree': describe(levels)})
